@@ -11,21 +11,44 @@
 (*                                                                          *)
 (*   fault  what the harness saw of a fault: "" or one of                   *)
 (*          "signal", "program-fault", "bug", "assert", "sanitizer",        *)
-(*          "unexpected-signal".  The compiler catches SIGSEGV/SIGABRT/...  *)
-(*          itself and turns them into an error message plus exit 1, which  *)
-(*          would look honest; no step of this module matches an Observed   *)
-(*          event with a fault (nor one with a signal or a time-out: Hang), *)
-(*          so such a run is not a behaviour (Total).                       *)
+(*          "unexpected-signal", "out-of-memory".  The compiler catches     *)
+(*          SIGSEGV/SIGABRT/... itself and turns them into an error message *)
+(*          plus exit 1, which would look honest; no step of this module    *)
+(*          matches an Observed event with a fault (nor one with a signal   *)
+(*          or a time-out: Hang), so such a run is not a behaviour (Total). *)
 (*   cert   the certificates of invalidity that TLC derived for the source  *)
-(*          text of the run (SrcText!Cert, Mutants!MCert, Directives!DCert) *)
-(*          -- a sequence of names, empty when the specification does not   *)
+(*          text of the run (SrcText!Cert, Mutants, Directives) -- a        *)
+(*          sequence of names, empty when the specification does not        *)
 (*          certify the text invalid.  InvalidDiagnosed: a run on a         *)
 (*          certified-invalid text printed at least one error.              *)
+(*                                                                          *)
+(* Verdicts.  A batch holds tens of thousands of runs and -continue prints  *)
+(* the whole behaviour up to every invariant violation, so the outcome of a *)
+(* run is judged where it becomes known: the Observed step evaluates every  *)
+(* invariant of Driver in its successor state and prints one JUDGED line    *)
+(* (index of the event, names of the invariants that do not hold).  The     *)
+(* invariants of the configuration cover all other states (Mid...).  A run  *)
+(* no step matches is reported by STUCK as in TraceDriver.                  *)
 (***************************************************************************)
 EXTENDS TraceDriver
 
+\* the state reached by the Observed step of a run whose text is certified invalid has printedError
+InvalidDiagnosed(e) == Len(e.cert) > 0 => printedError
+
+Failing(e) == (IF TypeOK THEN {} ELSE {"TypeOK"})
+              \cup (IF HonestExit THEN {} ELSE {"HonestExit"})
+              \cup (IF CompleteOnSuccess THEN {} ELSE {"CompleteOnSuccess"})
+              \cup (IF NoOutputAfterError THEN {} ELSE {"NoOutputAfterError"})
+              \cup (IF FailureSurfaces THEN {} ELSE {"FailureSurfaces"})
+              \cup (IF NothingOpenAtSuccess THEN {} ELSE {"NothingOpenAtSuccess"})
+              \cup (IF PendingIsReported THEN {} ELSE {"PendingIsReported"})
+              \cup (IF InvalidDiagnosed(e) THEN {} ELSE {"InvalidDiagnosed"})
+
 TrObservedT == /\ TrObserved
                /\ Ev.fault = ""
+               /\ \E i \in {l} :        \* i is a value, so that the prime below does not reach into Trc[l]
+                    LET bad == Failing(Trc[i])'
+                    IN  bad # {} => PrintT(<<"JUDGED", i, bad>>)
 
 TraceCoreT == \/ TrReset \/ TrFileStart \/ TrFileEnd \/ TrPhStart \/ TrPhEnd \/ TrMsg \/ TrOpen
               \/ TrClose \/ TrCleanup \/ TrLink \/ TrInterp \/ TrExit \/ TrObservedT
@@ -39,7 +62,13 @@ TrRejectedT ==
 TraceNextT == TraceCoreT \/ TrRejectedT \/ TrEnd
 TraceSpecT == TraceInit /\ [][TraceNextT]_tvars
 
-\* the state reached by the Observed step of a run whose text is certified invalid has printedError
-JustObserved     == l > 1 /\ Trc[l - 1].ev = "Observed" /\ exit # NoExit
-InvalidDiagnosed == (JustObserved /\ Len(Trc[l - 1].cert) > 0) => printedError
+\* every state that is not the successor of an Observed step (those are judged by JUDGED)
+AtObserved == l > 1 /\ Trc[l - 1].ev = "Observed"
+MidTypeOK             == AtObserved \/ TypeOK
+MidHonestExit         == AtObserved \/ HonestExit
+MidNoOutputAfterError == AtObserved \/ NoOutputAfterError
+MidFailureSurfaces    == AtObserved \/ FailureSurfaces
+MidNothingOpen        == AtObserved \/ NothingOpenAtSuccess
+MidPendingIsReported  == AtObserved \/ PendingIsReported
+MidCompleteOnSuccess  == AtObserved \/ CompleteOnSuccess
 =============================================================================
